@@ -108,6 +108,11 @@ def scenario(rng):
     # the import sets are spread over 1-3 declarations; a declaration that fails (missing library, import cycle) may stand between them,
     # and the counter may be imported once more, through another import set, after it
     forms = []
+    if rng.random() < 0.6:
+        # any order: the counter is then not always the first library to be instantiated (a library that has nothing to do with it may come first)
+        rest = imports[1:]
+        rng.shuffle(rest)
+        imports = imports[:1] + rest
     cuts = sorted(rng.sample(range(1, len(imports)), min(len(imports) - 1, rng.choice([0, 0, 1, 2])))) if len(imports) > 1 else []
     groups = [imports[a:b] for a, b in zip([0] + cuts, cuts + [len(imports)])]
     failing = None
